@@ -32,6 +32,10 @@ type suiteFn func(r *Rng, n int, thorough bool, o *Out)
 var suites = map[string]suiteFn{}
 
 func main() {
+	if len(os.Args) >= 5 && os.Args[1] == "racer" {
+		racerMain()
+		return
+	}
 	if len(os.Args) < 5 {
 		fmt.Fprintln(os.Stderr, "usage: corr <suite> <seed> <n> <outfile> [thorough]")
 		os.Exit(2)
